@@ -8,12 +8,35 @@ OffsetsKeys == {-1, 1}
 OffsetsThorough == {-3000, -61, -1, 0, 1, 59, 61, 3000}
 DurationsThorough == {0, 1, 5, 61, 119, 120, 121, 3600, 3601, 86400, 604800, -5}
 
-Emit == (out.call \in {"validate", "getuser"}) =>
+OffsetsClass == {-1}
+DurationsClass == {0}
+
+(* The user-ID alphabet family: tokens issued for every structured user ID (frame x character class x position),    *)
+(* read back (GetUser), validated for the user read (ValidateRead), for the issued user under every key, and for    *)
+(* every NEIGHBOUR of the issued user under the issuing key (a refusal there is owed to the user ID alone).         *)
+(* Relevance pruning: no rule that reads the user ID reads the key or the clock, so alterations and re-minting      *)
+(* (explored with the plain user IDs) are left out and the instants are few.  Issued under one key, validated      *)
+(* under all.  WideNeighbours (thorough): every structured user ID of the same frame is tried, not only neighbours. *)
+CONSTANT WideNeighbours
+SameFrameTable == [u \in ClassUsers |-> {v \in ClassUsers : PartsOf[v][1] = PartsOf[u][1]} \ {u}]
+TriedWith(u) == IF WideNeighbours THEN SameFrameTable[u] ELSE Neighbours(u)
+
+ClassIssueSecrets == {CHOOSE s \in Secrets : TRUE}
+NextClass == \/ tok = NoToken /\ \E s \in ClassIssueSecrets, u \in ClassUsers, d \in Durations : Issue(s, u, d)
+             \/ \E o \in Offsets : TickTo(o)
+             \/ tok # NoToken /\ \E s \in Secrets : Validate(s, origin.user)
+             \/ tok # NoToken /\ (WideNeighbours \/ clock = origin.at)      \* (quick: neighbours at the issue instant only)
+                /\ \E v \in TriedWith(origin.user) : Validate(origin.secret, v)
+             \/ GetUser
+             \/ \E s \in Secrets : ValidateRead(s)
+SpecClass == Init /\ [][NextClass]_vars
+
+Emit == (out.call \in {"validate", "getuser", "validate_read"}) =>
           PrintT(ToJson([call |-> out.call,
                          secret |-> origin.secret, user |-> origin.user, dur |-> origin.dur,
                          at |-> origin.at, altered |-> altered, clock |-> clock,
-                         vsecret |-> IF out.call = "validate" THEN out.secret ELSE "",
-                         vuser |-> IF out.call = "validate" THEN out.user ELSE "",
+                         vsecret |-> IF Validated THEN out.secret ELSE "",
+                         vuser |-> IF Validated THEN out.user ELSE "",
                          ok |-> out.ok,
                          guser |-> IF out.call = "getuser" /\ Unaltered THEN out.user ELSE ""]))
 =============================================================================
